@@ -144,6 +144,150 @@ def monitorC19 (script : List Cmd) (iters : List Iter) : Option String :=
       some s!"query-more-often-than-backoff name={hexOfBytes n} ty={ty} sends={sends.take 12} starts={st}"
     else none
 
+/-! ### shared helpers for the history monitors -/
+
+/-- index of the iteration of daemon `d` that processes a call attached at iteration index `k` -/
+def procIter (iters : List Iter) (k d : Nat) : Option Nat :=
+  (iters.zipIdx.find? fun ((it, j) : Iter × Nat) => j ≥ k && it.d == d).map (·.2)
+
+/-- all API calls that returned ok: (command, index of the iteration that processes it) -/
+def processedCalls (script : List Cmd) (iters : List Iter) (dOf : Cmd → Option Nat) : List (Cmd × Nat) :=
+  iters.zipIdx.flatMap fun ((it, k) : Iter × Nat) =>
+    it.calls.filterMap fun ((i, r) : Nat × String) =>
+      if r != "ok" then none else
+      match script.toArray[i]? with
+      | some c => (dOf c).bind fun d => (procIter iters k d).map fun j => (c, j)
+      | none => none
+
+def cmdDaemon : Cmd → Option Nat
+  | .browse d .. | .stopBrowse d _ | .resolve d .. | .stopResolve d _ | .unregister d .. | .monitor d _
+  | .shutdown d _ | .status d _ | .metrics d _ | .verify d .. | .ipint d _ => some d
+  | _ => none
+
+/-- events of channel (d, ch) with the index of their iteration -/
+def chanEvents (iters : List Iter) (d ch : Nat) : List (Nat × List String) :=
+  iters.zipIdx.flatMap fun ((it, k) : Iter × Nat) =>
+    if it.d != d then [] else (it.evs.filter (·.1 == ch)).map fun e => (k, e.2)
+
+/-- did daemon `d` send a query with a question for `name` (any letter case, any type in `tys`)
+    in iteration `k`? -/
+def askedIn (it : Iter) (name : BList) (tys : List Nat) : Bool :=
+  it.tx.any fun ((_, _, _, b) : Nat × Bool × String × BList) =>
+    match questionsOf b with
+    | some (false, qs, _) => qs.any fun ((n, t) : BList × Nat) => n == lower name && tys.contains t
+    | _ => false
+
+/-! ### C13 monitor -/
+
+/-- `ok_C13` on one history: channel protocol and finality of stopping.  Returns the
+    first failing clause. -/
+def monitorC13 (script : List Cmd) (iters : List Iter) : Option String :=
+  let calls := processedCalls script iters cmdDaemon
+  let itArr := iters.toArray
+  -- when does daemon d process a shutdown?
+  let shutdownAt (d : Nat) : Option Nat :=
+    calls.findSome? fun ((c, k) : Cmd × Nat) => match c with | .shutdown d' _ => if d' == d then some k else none | _ => none
+  let browseClause := calls.findSome? fun ((c, k0) : Cmd × Nat) =>
+    match c with
+    | .browse d ch ty cacheOnly =>
+      let evs := chanEvents iters d ch
+      let kinds := evs.map fun e => e.2.headD ""
+      -- later (re)starts and stops of the same type on the same daemon
+      let laterStart := (calls.filterMap fun ((c', k) : Cmd × Nat) =>
+        match c' with
+        | .browse d' _ ty' _ => if d' == d && ty' == ty && k > k0 then some k else none
+        | _ => none).foldl min (10 ^ 18)
+      let stopAt := (calls.filterMap fun ((c', k) : Cmd × Nat) =>
+        match c' with
+        | .stopBrowse d' ty' => if d' == d && ty' == ty && k ≥ k0 && k ≤ laterStart then some k else none
+        | _ => none).head?
+      let endAt := match stopAt, shutdownAt d with
+        | some a, some b => some (min a b)
+        | some a, none => some a
+        | none, some b => if b ≤ laterStart then some b else none
+        | none, none => none
+      if kinds.head? != none && kinds.head? != some "started" then some s!"first-event-not-SearchStarted ch={ch}"
+      else if evs.any (fun e => e.2.headD "" == "resolved" &&
+          !(evs.any fun f => f.2.headD "" == "found" && f.1 ≤ e.1 && f.2[2]? == e.2[3]?)) then
+        some s!"ServiceResolved-without-ServiceFound ch={ch}"
+      else if !cacheOnly && (kinds.filter (· == "stopped")).length > 1 then some s!"SearchStopped-twice ch={ch}"
+      else if !cacheOnly && kinds.contains "stopped" && kinds.getLast? != some "stopped" then
+        some s!"event-after-SearchStopped ch={ch}"
+      else match endAt with
+        | none => none
+        | some ke =>
+          -- the search was started (its start was processed before the daemon ended)
+          if kinds.isEmpty then none
+          else if !cacheOnly && !(evs.any fun e => e.1 == ke && e.2.headD "" == "stopped") then
+            some s!"no-SearchStopped-at-stop ch={ch}"
+          else
+            -- no further query for that type until it is browsed again
+            let bad := (List.range itArr.size).any fun j =>
+              j > ke && j < laterStart && (itArr[j]?.map fun it => it.d == d && askedIn it ty [12]).getD false
+            if bad then some s!"query-after-stop ty={hexOfBytes ty}" else none
+    | _ => none
+  let cacheOnlyClause := calls.findSome? fun ((c, k0) : Cmd × Nat) =>
+    match c with
+    | .browse d _ ty true =>
+      let laterStart := (calls.filterMap fun ((c', k) : Cmd × Nat) =>
+        match c' with
+        | .browse d' _ ty' false => if d' == d && ty' == ty && k > k0 then some k else none
+        | _ => none).foldl min (10 ^ 18)
+      let bad := (List.range itArr.size).filter fun j =>
+        j ≥ k0 && j < laterStart && (itArr[j]?.map fun it => it.d == d && askedIn it ty [12]).getD false
+      -- a query in the iteration that starts the search, or one second later and doubling,
+      -- is a schedule query; later ones are cache refreshes (known finding D23)
+      if bad.contains k0 then some s!"cache-only-browse-sends-query ty={hexOfBytes ty}"
+      else if !bad.isEmpty then some s!"cache-only-browse-refresh-query ty={hexOfBytes ty}"
+      else none
+    | _ => none
+  let hostClause := calls.findSome? fun ((c, k0) : Cmd × Nat) =>
+    match c with
+    | .resolve d ch host timeout =>
+      let evs := chanEvents iters d ch
+      let kinds := evs.map fun e => e.2.headD ""
+      let laterStart := (calls.filterMap fun ((c', k) : Cmd × Nat) =>
+        match c' with
+        | .resolve d' _ h' _ => if d' == d && lower h' == lower host && k > k0 then some k else none
+        | _ => none).foldl min (10 ^ 18)
+      let stopAt := (calls.filterMap fun ((c', k) : Cmd × Nat) =>
+        match c' with
+        | .stopResolve d' h' => if d' == d && lower h' == lower host && k ≥ k0 && k ≤ laterStart then some k else none
+        | _ => none).head?
+      -- the deadline, if a time-out was given
+      let t0 := (itArr[k0]?.map (·.now)).getD 0
+      let timeoutAt := timeout.bind fun t =>
+        ((List.range itArr.size).find? fun j =>
+          j ≥ k0 && (itArr[j]?.map fun it => it.d == d && it.now ≥ t0 + t).getD false)
+      let ends := [stopAt, timeoutAt, (shutdownAt d).bind fun b => if b ≤ laterStart then some b else none].filterMap id
+      let endAt := ends.foldl (fun acc x => some (match acc with | some a => min a x | none => x)) none
+      if kinds.head? != none && kinds.head? != some "hstarted" then some s!"first-event-not-SearchStarted ch={ch}"
+      else if (kinds.filter (· == "hstopped")).length > 1 then some s!"SearchStopped-twice ch={ch}"
+      else if kinds.contains "hstopped" && kinds.getLast? != some "hstopped" then some s!"event-after-SearchStopped ch={ch}"
+      else if kinds.contains "htimeout" && kinds.dropLast.getLast? != some "htimeout" then
+        some s!"SearchTimeout-not-followed-by-SearchStopped ch={ch}"
+      else match endAt with
+        | none => none
+        | some ke =>
+          if kinds.isEmpty then none
+          else if laterStart ≤ ke then none       -- replaced by a new search before it ended
+          else if !(evs.any fun e => e.1 == ke && e.2.headD "" == "hstopped") then
+            some s!"no-SearchStopped-at-stop-or-timeout ch={ch} iter={ke}"
+          else if timeoutAt == some ke && stopAt.all (· ≥ ke) &&
+              !(evs.any fun e => e.1 == ke && e.2.headD "" == "htimeout") then
+            some s!"no-SearchTimeout-at-deadline ch={ch}"
+          else
+            -- address queries for the host may also come from a browse that resolves an
+            -- instance living on that host: the clause is only evaluated when this daemon
+            -- has no browse at all in the history
+            let browses := calls.any fun ((c', _) : Cmd × Nat) =>
+              match c' with | .browse d' .. => d' == d | _ => false
+            let bad := (List.range itArr.size).any fun j =>
+              j > ke && j < laterStart && (itArr[j]?.map fun it => it.d == d && askedIn it host [1, 28]).getD false
+            if bad && !browses then some s!"query-after-stop host={hexOfBytes host}" else none
+    | _ => none
+  browseClause <|> cacheOnlyClause <|> hostClause
+
 def monitor (prop : String) (script : List Cmd) (obs : List Obs) : Option String :=
   let iters := iterations obs
   if obs.any (fun o => match o with | .other _ => true | _ => false) then some "unparsable-observation"
@@ -151,6 +295,7 @@ def monitor (prop : String) (script : List Cmd) (obs : List Obs) : Option String
   else
     match prop with
     | "C19" => monitorC19 script iters
+    | "C13" => monitorC13 script iters
     | _ => none
 
 def exec (ts : List String) (impl : List String) : Option String :=
